@@ -209,6 +209,7 @@ RULES = [
     ("X-LEXEMS", "every lexem but an empty quoted string reaches the grammar (a blank string is a value) [shared]", lambda ctx: __import__("extra2").lexems_are_kept(ctx)),
     ("X-NAMES", "column names and function names do not overlap (a bare word is tried as a column first) [shared]", lambda ctx: __import__("extra2").names_disjoint(ctx)),
     ("X-BRACKETS", "wherever the parser tests for a closing bracket of one style it provides for the other style as well [shared]", lambda ctx: __import__("extra2").bracket_styles_agree(ctx)),
+    ("C13-R2", "date arguments: the interval table of parse_datetime on the extracted regex, days 30 / 31 included [shared with C13]", lambda ctx: __import__("c13").r2(ctx)),
 ]
 
 EXPLANATION = (
